@@ -9,6 +9,7 @@ import Khttp.Driver.Epoll
 import Khttp.Driver.Loop
 import Khttp.Driver.Body
 import Khttp.Driver.Conn
+import Khttp.Driver.Mem
 open Khttp Khttp.Driver
 
 def answer (line : String) : String :=
@@ -28,6 +29,7 @@ def answer (line : String) : String :=
     | "RDREQ" => rdreqLine arg
     | "BODY" => bodyLine arg
     | "CONN" => connLine arg
+    | "MEMMODEL" => memLine arg
     | "DATECACHE" => dateCacheLine arg
     | "POOLTRACE" => poolTraceLine arg
     | _ => "BAD-DOMAIN"
